@@ -61,6 +61,13 @@ def correspond(ctx):
                     panics.append(dict(op=o.rstrip('\n'), impl=x.rstrip('\n')))
     except Exception:
         panics = c.get('panics', [])
+    st = c.get('stats') if isinstance(c.get('stats'), dict) else {}
+    for a in (st.get('aliasing') or [])[:3]:
+        c['violations'].append(dict(key='returned-bytes-clobbered', desc='bytes returned by evm.Call changed while a later program ran (aliasing of a reused buffer)',
+                                    replay=dict(op=a.split(' || ')[0], note=a)))
+    for a in (st.get('rejected') or [])[:3]:
+        c['violations'].append(dict(key='wellformed-program-rejected', desc='a well-formed single-opcode program with ample gas was not accepted: ' + a,
+                                    replay=dict(op=a.split(' => ')[0], impl=a.split(' => ')[-1])))
     for p in panics[:5]:
         c['violations'].append(dict(key='panic-in-computational-opcode', desc='the EVM panicked: ' + p['impl'],
                                     replay=dict(op=p['op'], impl=p['impl'],
@@ -106,6 +113,47 @@ def search(ctx, hints):
                             cmd='cd <scratch dir> && %s mode=line line="%s"' % (binp, m.group(4)))))
     if rc != 0:
         res['error'] = 'searcher exited %d: %s' % (rc, (se or so)[-600:])
+    # concurrency phase (evidence, not proof): N goroutines with their own EVMs vs the sequential answers;
+    # plain build in quick, -race build in thorough
+    cbin = binp
+    if ctx.thorough():
+        rb, log = vlib.go_build(ctx, vlib.HARNESS, './cmd/c10', 'c10race', race=True)
+        if rb:
+            cbin = rb
+    cwd = ctx.scratch('c10conc')
+    rc2, so2, se2 = vlib.run([cbin, 'mode=concurrent', 'n=%d' % (20000 if ctx.thorough() else 3000)], cwd=cwd, env=env, timeout=1500)
+    shutil.rmtree(cwd, ignore_errors=True)
+    conc = dict(build='race' if cbin != binp else 'plain', note='evidence, not proof')
+    for line in so2.split('\n'):
+        if line.startswith('STATS '):
+            try:
+                conc.update(json.loads(line[6:]))
+                res['evaluations'] += conc.get('evaluations', 0)
+            except Exception:
+                pass
+        m = re.match(r'FOUND key=(\S+) impl=(\S+) ref=(\S+) line=(.*)', line)
+        if m and m.group(1) not in seen:
+            seen.add(m.group(1))
+            res['violations'].append(dict(key=m.group(1), desc='concurrent execution answered %s, %s' % (m.group(2)[:160], m.group(3)[:160]),
+                                          replay=dict(op=m.group(4), impl=m.group(2), reference=m.group(3))))
+    if 'DATA RACE' in se2:
+        # a race counts for C10 only if one of the two racing accesses is itself in package vm or
+        # in uint256 (the frame right under "Read at/Write at/Previous ..."); races in other
+        # packages reached through the EVM (account DB caches, loggers) are recorded, not raised
+        in_vm, outside = [], []
+        for blk in se2.split('WARNING: DATA RACE')[1:]:
+            tops = re.findall(r'(?:Read at|Write at|Previous read at|Previous write at)[^\n]*\n\s+(\S+)\(\)', blk)
+            if any(('/src/vm.' in t or 'holiman/uint256' in t) for t in tops):
+                in_vm.append(blk[:1500])
+            else:
+                outside.append(' <-> '.join(tops)[:300])
+        conc['races_outside_vm'] = sorted(set(outside))[:5]
+        if in_vm:
+            res['violations'].append(dict(key='data-race-in-vm', desc='race detector report with a racing access inside package vm',
+                                          replay=dict(report=in_vm[0])))
+    if rc2 != 0 and 'DATA RACE' not in se2:
+        res['error'] = (res.get('error', '') + ' concurrent phase exited %d: %s' % (rc2, (se2 or so2)[-400:])).strip()
+    res['concurrency'] = conc
     res['samples'] = [dict(note='searcher: programs run on the real EVM and on an independent math/big reference')]
     return res
 
